@@ -336,6 +336,19 @@ def voiceTone (ch : MidiCh) (n : Note) (ph : Phys) (u : Option User) : Option Ra
     if vibActive && !ch.vibposZero then none
     else some (t + (ph.timbre.noteOffset : Rat) + ((ch.bend * (ch.bendMsb * 128 + ch.bendLsb) : Int) : Rat) / 1048576)
 
+/-- the note-off decision for one voice of a note (noteUpdate, Upd_Off): without the pedal the user is erased unless sostenuto (flag bit 2)
+    holds it; with the pedal down the user stays and is marked pedal-held (flag bit 1).  The Boolean says that the chip channel lost its last user. -/
+def offVoice (sustain : Bool) (cc : ChipCh) (midCh key : Nat) : ChipCh × Bool :=
+  if !sustain then
+    let doErase := match cc.users.find? (·.isLoc midCh key) with
+      | some u => u.sus / 2 % 2 == 0
+      | none => false
+    let cc' := if doErase then eraseUser cc midCh key else cc
+    (cc', doErase && cc'.users.isEmpty)
+  else
+    let r := findOrCreateUser cc midCh key
+    ((if r.2 then modUser r.1 midCh key fun d => { d with sus := d.sus ||| 1 } else r.1), false)
+
 /-- OPNMIDIplay::noteUpdate -/
 def noteUpdate (midCh key : Nat) (props : Nat) (select : Option Nat := none) : M Unit := do
   let ch ← getMidi midCh
@@ -364,25 +377,16 @@ def noteUpdate (midCh key : Nat) (props : Nat) (select : Option Nat := none) : M
     if sel c then
       if has props updOff then
         let chNow ← getMidi midCh
-        if !chNow.sustain then
-          let cc ← getChip c
-          let doErase := match cc.users.find? (·.isLoc midCh key) with
-            | some u => u.sus / 2 % 2 == 0
-            | none => false
-          let cc := if doErase then eraseUser cc midCh key else cc
-          setChip c cc
-          if doErase && cc.users.isEmpty then
-            chipNoteOff c
-            if has props updMute then
-              chipTouch c 0 127 127 127
-              setChip c { cc with koff := 0 }
-            else
-              setChip c { cc with koff := 1000 * (info.ins.keyOffMs : Int) }
-        else
-          let cc ← getChip c
-          let (cc, ok) := findOrCreateUser cc midCh key
-          let cc := if ok then modUser cc midCh key fun d => { d with sus := d.sus ||| 1 } else cc
-          setChip c cc
+        let cc0 ← getChip c
+        let (cc, silent) := offVoice chNow.sustain cc0 midCh key
+        setChip c cc
+        if silent then
+          chipNoteOff c
+          if has props updMute then
+            chipTouch c 0 127 127 127
+            setChip c { cc with koff := 0 }
+          else
+            setChip c { cc with koff := 1000 * (info.ins.keyOffMs : Int) }
         modNote midCh key fun n => { n with phys := n.phys.filter fun p => !(p.chan == c) }
       else
         if has props updPan then
@@ -464,6 +468,17 @@ def selectFrom (s : S) (ins : Timbre) : List Nat → Option Nat → Int → Exce
 def selectChannel (s : S) (ins : Timbre) : Except Fault (Option Nat) :=
   selectFrom s ins (List.range (liveChannels s)) none (-2147483647)
 
+/-- killSustainingNotes, per user: does the call concern this user (its MIDI channel, one of the hold flags being released)? -/
+def killApplies (midCh : Option Nat) (susType : Nat) (cur : User) : Bool :=
+  (match midCh with | none => true | some m => m == cur.midCh) && (cur.sus &&& susType) != 0
+
+/-- the hold flags a user keeps when the holds in `susType` (1 pedal, 2 sostenuto, 3 both) end: `sustained &= ~sustain_type` -/
+def susAfter (susType : Nat) (cur : User) : Nat := cur.sus &&& (3 - susType % 4)
+
+/-- markSostenutoNotes on one chip channel: the users of the MIDI channel whose key is down (no hold flag) become sostenuto-held -/
+def markSost (midCh : Nat) (cc : ChipCh) : ChipCh :=
+  { cc with users := cc.users.map fun u => if u.midCh == midCh && u.sus == 0 then { u with sus := u.sus ||| 2 } else u }
+
 /-- killSustainingNotes (with the held-key handling) -/
 def killSustainingNotes (midCh : Option Nat) (thisChan : Option Nat) (susType : Nat) : M Unit := do
   let s ← get
@@ -476,9 +491,8 @@ def killSustainingNotes (midCh : Option Nat) (thisChan : Option Nat) (susType : 
         match cc.users.find? (·.isLoc jd.midCh jd.key) with
         | none => pure ()
         | some cur =>
-          let chMatch := match midCh with | none => true | some m => m == cur.midCh
-          if chMatch && (cur.sus &&& susType) != 0 then
-            let newSus := cur.sus &&& (3 - susType % 4)        -- sustained &= ~sustain_type (two flag bits)
+          if killApplies midCh susType cur then
+            let newSus := susAfter susType cur
             if newSus != 0 then
               setChip c (modUser cc cur.midCh cur.key fun d => { d with sus := newSus })
             else
@@ -505,7 +519,7 @@ def markSostenutoNotes (midCh : Nat) : M Unit := do
   let s ← get
   for c in List.range (liveChannels s) do
     let cc ← getChip c
-    setChip c { cc with users := cc.users.map fun u => if u.midCh == midCh && u.sus == 0 then { u with sus := u.sus ||| 2 } else u }
+    setChip c (markSost midCh cc)
 
 /-- killOrEvacuate -/
 def killOrEvacuate (fromChan : Nat) (jd : User) : M Unit := do
